@@ -1367,3 +1367,72 @@ func S19(rc *RC) {
 		rc.S.Ok("S19", fi.Key, pos, fmt.Sprintf("%d converting path(s), each through T() and Transpose()", n))
 	}
 }
+
+// S20: dropping unit axes. After slicing, both calculators remove every axis that an explicit
+// slice reduced to one element: `X = append(X[:d], X[d+1:]...)` inside a counting loop over d.
+// Removing element d shifts the rest left, so the same position must be examined again: inside
+// that branch the loop variable is stepped back (d-1), the bound shrinks (dims-1) and the slice
+// offset grows (offset+1), in both calculators alike.
+func S20(rc *RC) {
+	rc.S.Declare("S20", "unit-axis removal: in AP.S and Shape.S the branch that deletes axis d from the shape steps d back by one, shrinks the loop bound by one and advances the slice offset by one", 2)
+	for _, key := range []string{"tensor.(*AP).S", "tensor.(Shape).S"} {
+		fi := anchor(rc, "S20", key)
+		if fi == nil {
+			continue
+		}
+		pos := rc.P.Pos(fi.Decl.Pos())
+		c := ir.NewCanon(rc.P.Fset, fi.Pkg.TypesInfo, ir.Options{ParamNames: true, KeepNames: true, NoSubst: true})
+		tree := c.Func(fi.Decl)
+		found := false
+		var bad []string
+		for _, lp := range ir.FindLoops(tree) {
+			v := loopCounter(lp)
+			if v == "" || lp.Kind != "loop" {
+				continue
+			}
+			m := regexp.MustCompile(`^for \(([%$]\w+) > `).FindStringSubmatch(lp.Head)
+			for _, n := range flatten(lp.Kids) {
+				if n.Kind != "if" {
+					continue
+				}
+				del := false
+				upd := map[string]string{}
+				for _, k := range n.Kids {
+					if (k.Kind == "let" || k.Kind == "store") && regexp.MustCompile(`^append\(`+regexp.QuoteMeta(k.Target)+`\[:`+regexp.QuoteMeta(v)+`\], `+regexp.QuoteMeta(k.Target)+`\[\(`+regexp.QuoteMeta(v)+` \+ 1\):\]\.\.\.\)$`).MatchString(k.Value) {
+						del = true
+					}
+					if k.Kind == "let" || k.Kind == "store" {
+						upd[k.Target] = k.Value
+					}
+				}
+				if !del {
+					continue
+				}
+				found = true
+				if upd[v] != "("+v+" - 1)" {
+					bad = append(bad, fmt.Sprintf("after deleting axis %s the loop variable is not stepped back (%s = %s): the axis that moved into position %s is skipped", v, v, upd[v], v))
+				}
+				if m != nil && upd[m[1]] != "("+m[1]+" - 1)" {
+					bad = append(bad, fmt.Sprintf("the loop bound %s is not reduced after deleting an axis", m[1]))
+				}
+				off := false
+				for t, val := range upd {
+					if val == "("+t+" + 1)" {
+						off = true
+					}
+				}
+				if !off {
+					bad = append(bad, "the slice offset is not advanced after deleting an axis")
+				}
+			}
+		}
+		switch {
+		case !found:
+			rc.S.Undec("S20", key, pos, "no loop deleting unit axes found")
+		case len(bad) > 0:
+			rc.S.Viol("S20", key, pos, strings.Join(uniq(bad), "; ")).Sig = firstWords(bad)
+		default:
+			rc.S.Ok("S20", key, pos, "d-1, bound-1, offset+1 in the deleting branch")
+		}
+	}
+}
